@@ -241,26 +241,27 @@ def job_test(w, m):
         return False
 
 
-CHECKS_BY_FILE = [
-    ("norminette/lexer/", "C05 C09 C10 C11 C12 C17"),
-    ("norminette/__main__.py", "C04 C05 C06 C13 C14 C15 C16"),
-    ("norminette/errors.py", "C04 C08 C16"),
-    ("norminette/file.py", "C03 C09 C12 C15 C16"),
-    ("norminette/norm_error.py", "C04 C05 C08"),
-    ("norminette/registry.py", "C05 C06 C07"),
-    ("norminette/context.py", "C03 C05 C06 C07 C14 C18"),
+CHECKS_BY_FILE = [      # cheapest check first: the first exit 1 ends the run for that mutant
+    ("norminette/lexer/", "C10 C12 C11 C17 C09 C05"),
+    ("norminette/__main__.py", "C04 C14 C16 C13 C15 C06 C05"),
+    ("norminette/errors.py", "C08 C04 C16"),
+    ("norminette/file.py", "C16 C15 C03 C12 C09"),
+    ("norminette/norm_error.py", "C08 C04 C05"),
+    ("norminette/registry.py", "C06 C07 C05"),
+    ("norminette/context.py", "C18 C14 C06 C03 C07 C05"),
     ("norminette/scope.py", "C03 C07"),
     ("norminette/rules/check_header.py", "C13"),
     ("norminette/rules/check_preprocessor_protection.py", "C14"),
-    ("norminette/rules/is_preprocessor_statement.py", "C05 C06 C07 C14 C18"),
+    ("norminette/rules/is_preprocessor_statement.py", "C18 C14 C06 C07 C05"),
     ("norminette/rules/check_line_len.py", "C03"),
-    ("norminette/rules/check_comment_line_len.py", "C03 C08 C09"),
+    ("norminette/rules/check_comment_line_len.py", "C08 C03 C09"),
     ("norminette/rules/check_line_count.py", "C03"),
     ("norminette/rules/check_func_arguments_count.py", "C03"),
     ("norminette/rules/check_functions_count.py", "C03"),
-    ("norminette/rules/check_variables_count.py", "C03"),   # may not exist; harmless
-    ("norminette/rules/is_", "C03 C05 C07 C18"),
-    ("norminette/rules/", "C05 C17 C18"),
+    ("norminette/rules/check_variable_declaration.py", "C03 C05"),
+    ("norminette/rules/rule.py", "C06 C07 C05"),
+    ("norminette/rules/is_", "C18 C03 C07 C05"),
+    ("norminette/rules/", "C18 C17 C05"),
 ]
 
 
